@@ -17,29 +17,35 @@ Theorem parse_serialize_exact : forall es,
 Proof. exact C17_Codec.parse_serialize_exact. Qed.
 Print Assumptions parse_serialize_exact.
 
+(* All table theorems hold for EVERY choice of the writer-side constants [tp : tparams] = index spacing, bloom filter
+   bits and hash count, with [params_ok tp] = spacing > 0, 0 < bits, bits + 63 < 2^32, hashes < 2^32 (what the Go code
+   needs not to divide by zero / overflow uint32). The property does not fix these constants; readers never use them. *)
+Example default_params_ok : params_ok default_params.
+Proof. repeat split; vm_compute; try reflexivity; repeat constructor. Qed.
+
 (* ---------- point lookup ---------- *)
 (* run_ok es = Forall entry_ok es /\ keys_sorted es = true /\ blen (ser_entries es) < 2^32 (uint32 index offsets) *)
-Theorem table_get_is_find : forall es key, run_ok es -> table_get (write_table es) key = get_spec es key.
+Theorem table_get_is_find : forall tp es key, params_ok tp -> run_ok es -> table_get (write_table tp es) key = get_spec es key.
 Proof. exact C17_Main.table_get_is_find. Qed.
 Print Assumptions table_get_is_find.
 
-Theorem table_get_reopen_is_find : forall es key,
-  run_ok es -> table_get (reopen (write_table es)) key = get_spec es key.
+Theorem table_get_reopen_is_find : forall tp es key,
+  params_ok tp -> run_ok es -> table_get (reopen (write_table tp es)) key = get_spec es key.
 Proof. exact C17_Main.table_get_reopen_is_find. Qed.
 Print Assumptions table_get_reopen_is_find.
 
-Theorem table_get_never_panics : forall es key, run_ok es ->
-  table_get (write_table es) key <> GPanic /\ table_get (write_table es) key <> GErr.
+Theorem table_get_never_panics : forall tp es key, params_ok tp -> run_ok es ->
+  table_get (write_table tp es) key <> GPanic /\ table_get (write_table tp es) key <> GErr.
 Proof. exact C17_Main.table_get_never_panics. Qed.
 Print Assumptions table_get_never_panics.
 
 (* every table of a split run answers lookups and scans, fresh and re-opened, with exactly its chunk of the run *)
-Theorem write_run_tables_read_back : forall es target, 1 <= target -> run_ok es ->
+Theorem write_run_tables_read_back : forall tp es target, params_ok tp -> 1 <= target -> run_ok es ->
   Forall (fun c => run_ok c /\
-                   (forall key, table_get (write_table c) key = get_spec c key) /\
-                   (forall key, table_get (reopen (write_table c)) key = get_spec c key) /\
-                   (forall p, table_scan_prefix (write_table c) p = Some (scan_spec c p)) /\
-                   (forall p, table_scan_prefix (reopen (write_table c)) p = Some (scan_spec c p)))
+                   (forall key, table_get (write_table tp c) key = get_spec c key) /\
+                   (forall key, table_get (reopen (write_table tp c)) key = get_spec c key) /\
+                   (forall p, table_scan_prefix (write_table tp c) p = Some (scan_spec c p)) /\
+                   (forall p, table_scan_prefix (reopen (write_table tp c)) p = Some (scan_spec c p)))
          (write_run es target).
 Proof. exact C17_Main.write_run_tables_read_back. Qed.
 Print Assumptions write_run_tables_read_back.
@@ -49,11 +55,11 @@ Print Assumptions write_run_tables_read_back.
    [level_scan]/[level_get] compose the per-table reads in level order; the table selection inside a level (binary
    search with RangePrefixCompare / RangeKeyCompare) is proved complete in Props/C06.v level_search_complete and is
    exercised by the correspondence check (codes 112, 113). *)
-Theorem level_reads_run_back : forall es target, 1 <= target -> run_ok es ->
-  (forall p, level_scan (map write_table (write_run es target)) p = Some (scan_spec es p)) /\
-  (forall key, level_get (map write_table (write_run es target)) key = get_spec es key) /\
-  (forall p, level_scan (map (fun c => reopen (write_table c)) (write_run es target)) p = Some (scan_spec es p)) /\
-  (forall key, level_get (map (fun c => reopen (write_table c)) (write_run es target)) key = get_spec es key).
+Theorem level_reads_run_back : forall tp es target, params_ok tp -> 1 <= target -> run_ok es ->
+  (forall p, level_scan (map (write_table tp) (write_run es target)) p = Some (scan_spec es p)) /\
+  (forall key, level_get (map (write_table tp) (write_run es target)) key = get_spec es key) /\
+  (forall p, level_scan (map (fun c => reopen (write_table tp c)) (write_run es target)) p = Some (scan_spec es p)) /\
+  (forall key, level_get (map (fun c => reopen (write_table tp c)) (write_run es target)) key = get_spec es key).
 Proof. exact C17_Main.level_reads_run_back. Qed.
 Print Assumptions level_reads_run_back.
 
@@ -67,20 +73,20 @@ Proof. exact C17_Fault.search_fault_surfaces. Qed.
 Print Assumptions search_fault_surfaces.
 
 (* ---------- prefix scan ---------- *)
-Theorem table_scan_is_filter : forall es p,
-  Forall entry_ok es -> table_scan_prefix (write_table es) p = Some (scan_spec es p).
+Theorem table_scan_is_filter : forall tp es p,
+  Forall entry_ok es -> table_scan_prefix (write_table tp es) p = Some (scan_spec es p).
 Proof. exact C17_Table.table_scan_is_filter. Qed.
 Print Assumptions table_scan_is_filter.
 
-Theorem table_scan_reopen_is_filter : forall es p,
-  Forall entry_ok es -> blen (ser_entries es) < 4294967296 ->
-  table_scan_prefix (reopen (write_table es)) p = Some (scan_spec es p).
+Theorem table_scan_reopen_is_filter : forall tp es p,
+  params_ok tp -> Forall entry_ok es -> blen (ser_entries es) < 4294967296 ->
+  table_scan_prefix (reopen (write_table tp es)) p = Some (scan_spec es p).
 Proof. exact C17_Reopen.table_scan_reopen_is_filter. Qed.
 Print Assumptions table_scan_reopen_is_filter.
 
 (* ---------- re-opening from the Document ---------- *)
-Theorem reopen_same : forall es,
-  blen (ser_entries es) < 4294967296 -> table_meta (reopen (write_table es)) = table_meta (write_table es).
+Theorem reopen_same : forall tp es, params_ok tp ->
+  blen (ser_entries es) < 4294967296 -> table_meta (reopen (write_table tp es)) = table_meta (write_table tp es).
 Proof. exact C17_Reopen.reopen_loads_writer_metadata. Qed.
 Print Assumptions reopen_same.
 
@@ -94,8 +100,8 @@ Theorem reopen_keeps_descriptor : forall t,
 Proof. exact C17_Reopen.reopen_keeps_descriptor. Qed.
 Print Assumptions reopen_keeps_descriptor.
 
-Theorem reopen_range_is_first_last : forall es,
-  t_start (reopen (write_table es)) = first_key es /\ t_end (reopen (write_table es)) = last_key es.
+Theorem reopen_range_is_first_last : forall tp es,
+  t_start (reopen (write_table tp es)) = first_key es /\ t_end (reopen (write_table tp es)) = last_key es.
 Proof. exact C17_Reopen.reopen_range_is_first_last. Qed.
 Print Assumptions reopen_range_is_first_last.
 
@@ -105,7 +111,8 @@ Theorem bloom_no_false_negative : forall size hashes keys k,
 Proof. exact C17_Bloom.bloom_no_false_negative. Qed.
 Print Assumptions bloom_no_false_negative.
 
-Theorem bloom_of_table_no_false_negative : forall es e, In e es -> bf_might_have (bloom_of es) (e_key e) = true.
+Theorem bloom_of_table_no_false_negative : forall tp es e, params_ok tp ->
+  In e es -> bf_might_have (bloom_of tp es) (e_key e) = true.
 Proof. exact C17_Bloom.bloom_of_no_false_negative. Qed.
 Print Assumptions bloom_of_table_no_false_negative.
 
@@ -152,7 +159,7 @@ Print Assumptions wal_saved_file.
 (* ---------- the code before the repairs violated the property (witnesses on the old models) ---------- *)
 Theorem old_get_panics_before_first_key_refuted :
   exists es key, Forall entry_ok es /\ keys_sorted es = true /\ blen (ser_entries es) < 4294967296 /\
-                 find_key key es = None /\ table_get_old (write_table es) key = GPanic.
+                 find_key key es = None /\ table_get_old (write_table default_params es) key = GPanic.
 Proof. exact C17_History.old_get_panics_before_first_key. Qed.
 Print Assumptions old_get_panics_before_first_key_refuted.
 
